@@ -30,9 +30,16 @@ type Mutant struct {
 	File   string   `json:"file"`
 	Old    string   `json:"old"`
 	New    string   `json:"new"`
-	Expect string   `json:"expect"` // substring of a new violation key (break)
+	More   []Edit   `json:"more,omitempty"` // further replacements in the same file (all must apply)
+	Expect string   `json:"expect"`         // substring of a new violation key (break)
 	Quick  bool     `json:"quick"`
 	Why    string   `json:"why,omitempty"`
+}
+
+// Edit is one more old/new replacement of a Mutant.
+type Edit struct {
+	Old string `json:"old"`
+	New string `json:"new"`
 }
 
 func loadMutants() ([]Mutant, error) {
@@ -96,7 +103,15 @@ func runMutant(prop, name string) int {
 			out.Status, out.Detail = "skipped", fmt.Sprintf("anchor text occurs %d times in %s (tree was edited)", n, m.File)
 			return emit()
 		}
-		overlay[abs] = []byte(strings.Replace(string(src), m.Old, m.New, 1))
+		text := strings.Replace(string(src), m.Old, m.New, 1)
+		for _, e := range m.More {
+			if n := strings.Count(text, e.Old); n != 1 {
+				out.Status, out.Detail = "skipped", fmt.Sprintf("anchor text of an additional edit occurs %d times in %s (tree was edited)", n, m.File)
+				return emit()
+			}
+			text = strings.Replace(text, e.Old, e.New, 1)
+		}
+		overlay[abs] = []byte(text)
 	}
 	prog, err := load.Load(load.Options{Overlay: overlay})
 	if err != nil {
